@@ -10,3 +10,10 @@ pub(crate) use send_blocks_proof::{verify_extra_hash, SendBlocksProofProcess};
 pub(crate) use send_last_state::SendLastStateProcess;
 pub(crate) use send_last_state_proof::{verify_mmr_proof, SendLastStateProofProcess};
 pub(crate) use send_transactions_proof::SendTransactionsProofProcess;
+
+// Re-exports for the verification harness only (private functions are otherwise unreachable).
+#[cfg(feature = "verif")]
+pub(crate) use send_last_state_proof::{
+    check_continuous_headers, check_if_response_is_matched, verify_tau, verify_total_difficulty,
+    EpochDifficultyTrend, EstimatedLimit,
+};
